@@ -190,6 +190,16 @@ def _columns(chk, mod, dname, meaning, kterm, vterm, node, colname, params, data
            kc is not None and kc != "index" and colname.get(kc) == meaning, node=node,
            expected=meaning, found=colname.get(kc, kc))
     vit = seq_items(vterm)
+    if vit:
+        # (z, *row): a starred table row stands for its columns in order (the table's width is known)
+        flat = []
+        for t in vit:
+            ta = t.as_atom()
+            if ta and ta[0] == "starred":
+                flat.extend(P.atom(("sub", ta[1], (P.const(c),))) for c in range(len(data[0])))
+            else:
+                flat.append(t)
+        vit = flat
     vcols = [col_of(t) for t in vit] if vit else None
     exp = ["index"] + list(range(len(params) - 1))
     chk.ob("R17.2", MOD, dname, f"{dname} values are (Z, name, symbol, cov, vdw, mass) in constructor order",
@@ -554,8 +564,13 @@ def r17_4(chk, mod, data, params):
     # a miss in the last stage raises: from_label raises when the symbol is unknown
     ev = mod.ev("Element.from_label")
     nraise = sum(1 for e in ev.events if e.kind == "raise")
+    from ..symex import terminates
+    fn = mod.funcs["Element.from_label"]
+    # every path leaves through a return (each is a guarded table row, above) or a raise: with no way to fall off the end and
+    # no bare return, a label that matches nothing / names no element can only raise
+    closed = terminates(fn.body) and all(e.value is not None and e.value.key() != "None" for e in ev.returns)
     chk.ob("R17.4", MOD, "Element.from_label", "an unknown label raises (no match, or symbol not in the table)",
-           nraise >= 2, expected=">= 2 raise sites", found=nraise)
+           nraise >= 1 and closed, expected="every path ends in a guarded table return or a raise", found=f"{nraise} raise site(s), closed={closed}")
     # shadowing: no capitalised name is a symbol; no symbol is spelled like a number
     syms = {r[1] for r in data}
     clash = [r[0] for r in data if r[0].capitalize() in syms]
